@@ -1,0 +1,12 @@
+//go:build verif
+// +build verif
+
+package bfe_spdy
+
+// VerifC39Dictionary returns the SPDY header compression dictionary, so that the out-of-tree
+// verification harness of C39 can build (and inspect) compressed header blocks with the same
+// shared zlib context the Framer uses (hook for build tag verif; add-only).
+func VerifC39Dictionary() []byte { return []byte(headerDictionary) }
+
+// VerifC39FrameLength returns the length field of a control frame header as parsed by ReadFrame.
+func VerifC39FrameLength(h ControlFrameHeader) uint32 { return h.length }
